@@ -337,6 +337,24 @@ func (e *EvalEnv) Eval(fn *ssa.Function, args []AV, depth int) ([]AV, string) {
 					}
 					fr.vals[v] = inner
 				}
+			case *ssa.Lookup:
+				// a lookup in a package-level table of string constants (built by the package initialiser)
+				x := e.val(fr, v.X)
+				k := e.val(fr, v.Index)
+				if x.K == avRef {
+					x = e.load(x)
+				}
+				tbl, okT := globalStringMap(e.P, x)
+				if !okT || k.K != avStr {
+					e.undecided("instruction *ssa.Lookup in %s", fn.Name())
+					return nil, "undecided"
+				}
+				val, hit := tbl[k.S]
+				if v.CommaOk {
+					fr.vals[v] = AV{K: avSlice, Elems: []AV{avS(val), avB(hit)}}
+				} else {
+					fr.vals[v] = avS(val)
+				}
 			case *ssa.Extract:
 				t := e.val(fr, v.Tuple)
 				if t.K != avSlice || v.Index >= len(t.Elems) {
@@ -783,4 +801,79 @@ func stdlibStringHook(callee *ssa.Function, args []AV) ([]AV, bool) {
 		}
 	}
 	return nil, false
+}
+
+// globalStringMap: the constant content of a package-level map[string]string variable, as the package initialiser
+// builds it (a map literal: make + constant updates, stored into the global once).
+func globalStringMap(p *Prog, x AV) (map[string]string, bool) {
+	if x.K != avOpaque || x.S == "" {
+		return nil, false
+	}
+	g, ok := p.SPkg.Members[x.S].(*ssa.Global)
+	if !ok {
+		return nil, false
+	}
+	mt, ok := g.Type().Underlying().(*types.Pointer).Elem().Underlying().(*types.Map)
+	if !ok {
+		return nil, false
+	}
+	if b, ok := mt.Key().Underlying().(*types.Basic); !ok || b.Info()&types.IsString == 0 {
+		return nil, false
+	}
+	if b, ok := mt.Elem().Underlying().(*types.Basic); !ok || b.Info()&types.IsString == 0 {
+		return nil, false
+	}
+	// written anywhere but in the initialiser? then its content is not a constant
+	init := p.SPkg.Func("init")
+	if init == nil {
+		return nil, false
+	}
+	var mk ssa.Value
+	stores := 0
+	for _, fn := range p.Funcs {
+		for _, b := range fn.Blocks {
+			for _, in := range b.Instrs {
+				if st, ok := in.(*ssa.Store); ok && st.Addr == ssa.Value(g) {
+					stores++
+					if fn != init {
+						return nil, false
+					}
+					mk = st.Val
+				}
+				if mu, ok := in.(*ssa.MapUpdate); ok && fn != init {
+					if ld, ok := mu.Map.(*ssa.UnOp); ok && ld.X == ssa.Value(g) {
+						return nil, false
+					}
+				}
+			}
+		}
+	}
+	for _, b := range init.Blocks {
+		for _, in := range b.Instrs {
+			if st, ok := in.(*ssa.Store); ok && st.Addr == ssa.Value(g) {
+				stores++
+				mk = st.Val
+			}
+		}
+	}
+	if mk == nil {
+		return nil, false
+	}
+	if _, ok := mk.(*ssa.MakeMap); !ok || mk.Referrers() == nil {
+		return nil, false
+	}
+	out := map[string]string{}
+	for _, rf := range *mk.Referrers() {
+		mu, ok := rf.(*ssa.MapUpdate)
+		if !ok {
+			continue
+		}
+		ks, ok1 := constString(mu.Key)
+		vs, ok2 := constString(mu.Value)
+		if !ok1 || !ok2 {
+			return nil, false
+		}
+		out[ks] = vs
+	}
+	return out, true
 }
